@@ -166,6 +166,9 @@ func main() {
 				if e > 0 && d > -margin && d < margin {
 					e += 3 * margin // stay away from the wall-clock threshold
 				}
+				if rng.Chance(30) { // an earlier mark that the later one must overwrite
+					ops = append(ops, mrun.Op{K: "expire", Ls: ls, E: vlib.Pick(rng, []int64{1, int64(time.Second), int64(100 * time.Hour)})})
+				}
 				ops = append(ops, mrun.Op{K: "expire", Ls: ls, E: e})
 			}
 			if rng.Chance(10) {
